@@ -61,7 +61,7 @@ func runC06(c *harness.Ctx) {
 		c.Info["server_pad"], c.Info["split_seed"] = padLen, split
 		cf, _ := transports.Get("obfs4").ClientFactory("")
 		c.S.Go("r/accept", func() {
-			time.Sleep(startOff)
+			c.S.Sleep(startOff)
 			hs := refServerHandshake(c, link.B, rid, refServerOpts{PadLen: padLen, Seed: seed, SplitSeed: split})
 			if hs.End == nil {
 				if !ending {
@@ -81,7 +81,7 @@ func runC06(c *harness.Ctx) {
 			refSide.start(c, hs.End)
 		})
 		c.S.Go("c/dial", func() {
-			time.Sleep(startOff)
+			c.S.Sleep(startOff)
 			args := &pt.Args{}
 			if legacy {
 				args.Add("node-id", rid.NodeIDHex())
@@ -123,7 +123,7 @@ func runC06(c *harness.Ctx) {
 		var seedWant []byte = make([]byte, 24)
 		mustHex(seedWant, id.Seed)
 		c.S.Go("s/accept", func() {
-			time.Sleep(startOff)
+			c.S.Sleep(startOff)
 			conn, err := sf.WrapConn(link.B)
 			if err != nil {
 				if !ending {
@@ -135,7 +135,7 @@ func runC06(c *harness.Ctx) {
 			realSide.start(c, conn, "C06")
 		})
 		c.S.Go("r/dial", func() {
-			time.Sleep(startOff)
+			c.S.Sleep(startOff)
 			hs := refClientHandshake(c, link.A, rid, refClientOpts{PadLen: padLen, HourOff: hourOff})
 			if hs.End == nil {
 				if !ending {
